@@ -6,6 +6,7 @@ package w2
 
 import (
 	"context"
+	"flag"
 	"encoding/json"
 	"fmt"
 	"io"
@@ -47,6 +48,7 @@ type startParams struct {
 	CNIPaths       []string
 	SetupIPtables  bool
 	RunGC          bool
+	GCDirs         string // --gc_dirs
 }
 
 // ---- kube client with field selectors ----------------------------------------------------------------------
@@ -188,6 +190,11 @@ func startDaemon(inst *Instance, p startParams) {
 	}
 	inst.g = g
 	inst.quit = make(chan struct{})
+	// the flag is process-global: set it for every daemon start (also back to the default)
+	if err := flag.Set("gc_dirs", p.GCDirs); err != nil {
+		fail("flags", err)
+		return
+	}
 	inst.gc = gc.NewFlannelGC(client, dockerCli, inst.quit, g.VerifCleanIPtables)
 	if p.RunGC {
 		// Galaxy.Start: gc.NewFlannelGC(...).Run() comes before setupIPtables; its loops are simulator tasks
